@@ -5,8 +5,8 @@ from ctypes import c_int, byref
 import gens, blk, compcases as cc
 from capi import Lib, Buf
 
-THEOREMS = ["C17_target_ge_bound", "C17_target_ge_bound_contract", "C17_fast_destSize", "C17_fast_fill_generic", "C17_hc_mid_destSize_strict", "C17_hc_chain_destSize", "C17_hc_opt_destSize"]
-CORRESPONDENCE = [cc.MID_CORR, cc.CHAIN_CORR, cc.CHAIN_SEARCH_CORR,
+THEOREMS = ["C17_target_ge_bound", "C17_target_ge_bound_contract", "C17_fast_destSize", "C17_fast_fill_generic", "C17_hc_mid_destSize_strict", "C17_hc_chain_destSize", "C17_hc_opt_destSize", "C17_hc_chain_destSize_strict", "C17_hc_opt_destSize_strict"]
+CORRESPONDENCE = [cc.MID_CORR, cc.CHAIN_CORR, cc.CHAIN_SEARCH_CORR, cc.CHAIN_DICT_CORR,
                   "Model.FastApi.compress_destSize == LZ4_compress_destSize / _destSize_extState (return value, consumed size, bytes, high-water mark)"]
 ORACLES = ["block", "mid", "chain"]
 RULE = ("inputs from the shared structured generators; EVERY targetDstSize 1..bound+1 for inputs <= 40 bytes, targets dense around each sequence boundary "
@@ -28,6 +28,8 @@ def gen_cases(tier, seed):
     n = {"quick": 64, "search": 256, "thorough": 600}[tier]
     cases = [{"bseed": 0, "count": 1, "mode": "corpus"}]
     cases += [{"bseed": rng.randrange(1 << 48), "count": 5, "mode": ["small", "mid", "mid", "big", "stream", "stream", "accel"][i % 7]} for i in range(n)]
+    # literal-run lengths at the 255-multiples of the length encoding, every budget around the sequence that overflows
+    cases += [{"bseed": rng.randrange(1 << 48), "count": 2, "mode": "ovf255"} for i in range({"quick": 4, "search": 16, "thorough": 40}[tier])]
     cases += cc.mid_gen_cases(rng, tier, 0.5)
     cases += cc.chain_gen_cases(rng, tier, 0.5)
     return cases
@@ -215,6 +217,21 @@ def run_case(st, case):
             lvl = rng.choice(cc.LEVELS)
             for t in rng.sample(ts, min(6, len(ts))):
                 dest_hc(st, rng, res, info, src, t, lvl)
+        elif mode == "ovf255":
+            # [ll literals][match of ml bytes][tail]: ll where (ll+240)/255, (ll-15)/255 and (ll+255-15)/256 differ or step
+            # (270, 525, 526, 780..782, ...), every budget from "the literals do not fit" to "everything fits", every
+            # compressor (seeded C17_4: the hash-chain overflow epilogue with a /256 formula)
+            ll = rng.choice([269, 270, 270, 271, 524, 525, 526, 527, 779, 780, 781, 782, 783, 1035, 1036, 14, 15, 16])
+            ml = rng.choice([8, 20, 100, 100, 300]); ml = min(ml, ll)
+            L = rng.randbytes(ll)
+            tail = rng.randbytes(rng.choice([13, 20, 60]))
+            src = L + L[:ml] + bytes([(L[ml % ll] + 1) % 256]) + tail
+            lo = max(1, ll - 4); hi = ll + ll // 255 + 40
+            for t in range(lo, hi):
+                dest_fast(st, rng, res, info, src, t)
+            for lvl in (1, 2, 3, 4, 6, 9, 10, 11, 12):
+                for t in range(lo, hi):
+                    dest_hc(st, rng, res, info, src, t, lvl)
         elif mode == "accel":
             src = gens.data(rng, kind, rng.choice([50, 300, 1260, 5000, 70000]))
             for _ in range(4):
